@@ -4,7 +4,7 @@ import json, sys
 
 TECH = ("bounded symbolic execution of the real functions from go/ssa (own executor gosmt), "
         "symbolic inputs%s, obligations discharged by SMT (z3 5.1 / cvc5 1.0 / cvc5 --solve-bv-as-int), "
-        "sat models replayed natively (sequential) or rendered access-by-access (concurrent)")
+        "sat models replayed natively against the real build (concurrent ones under a controlled scheduler at statement granularity, else reported as model-level traces)")
 
 CLAIMED = {
   # id: (category, text, note, design_ref, concurrent?)
@@ -105,7 +105,7 @@ def main():
             "quick_cmd": "./check.sh %s quick" % pid,
             "thorough_cmd": "./check.sh %s thorough" % pid,
             "evidence_file": "/verif/evidence/%s.json" % pid,
-            "replay_cmd_template": "cat {path}",
+            "replay_cmd_template": "cat {path}  # the check itself re-runs the replay; the file holds inputs, shape, schedule and trace",
             "engine": "gosmt",
             "level_claimed": {"category": cat, "text": text, "design_ref": ref},
             "level_note": note,
